@@ -61,6 +61,30 @@ def run(ctx):
     ctx.ob('C16.whole-packet', 'IsoOut.write_en-live-space', ok, we.loc,
            'write_en re-evaluates the space test (%s) for every byte and write_commit does not exclude a packet that had '
            'bytes refused: a packet that starts with just enough room is stored partially and still committed' % space)
+    # (b') the admission threshold itself: for packet sizes that are and are not powers of two, the space test in the write
+    #      gate holds exactly when a whole maximum-size packet fits (space_available >= max_packet_size)
+    from ..num import ev as _nev, NoEval as _NoEval
+    for mps in (64, 192, 1023):
+        irc = ctx.ir('USBIsochronousStreamOutEndpoint', 'isochronous_stream_out', endpoint_number=1, max_packet_size=mps)
+        wes = irc.drivers('fifo.write_en', exact=True)
+        lits = [l for l in (literals(wes[0].rhs, True) if len(wes) == 1 and isinstance(wes[0].rhs, E) else [])
+                if isinstance(l.e, E) and l.e.sigs() == {'fifo.space_available'}]
+        si = irc.signals.get('fifo.space_available')
+        wsp = si.w if si is not None and isinstance(si.w, int) else (2 * mps).bit_length()
+        bad = None
+        ctx.need(lits, 'the space test in the write gate (a condition on fifo.space_available alone)')
+        if lits:
+            try:
+                for v in range(0, min(1 << wsp, 2 * mps + 2)):
+                    got = all(bool(_nev(l.e, {'fifo.space_available': v, '$w:fifo.space_available': wsp})) == l.pos for l in lits)
+                    if got != (v >= mps) and bad is None:
+                        bad = (v, got)
+            except _NoEval as ex:
+                ctx.need(False, 'space test of the write gate as a function of space_available (%s)' % ex)
+        ctx.ob('C16.space-threshold', 'IsoOut.write_en.space-test[mps=%d]' % mps, bool(lits) and bad is None,
+               wes[0].loc if wes else None,
+               'a packet may be admitted exactly when max_packet_size = %d bytes are free: the test %s is %s with %s bytes free' % (
+                   mps, [l.canon() for l in lits], bad[1] if bad else None, bad[0] if bad else None))
     # (c)
     wdat = {}
     for key, (lo, hi) in (('fifo.write_data[0:8]', (0, 8)), ('fifo.write_data[8:9]', (8, 9)), ('fifo.write_data[9:10]', (9, 10))):
